@@ -44,6 +44,41 @@ def tame_family(rng, with_header, classification=False, void=True):
             "kinds": kinds, "cells": cells, "header": header}
 
 
+def padded_family(rng, with_header):
+    """space-padded tables (a blank after every delimiter, per column optional trailing blanks) in which fixed-width
+    lower-case code columns (2-4 letters) outnumber the numeric ones by >= 2.  Unambiguous: without header the first
+    row has the width of every other row in each code column and is numeric where they are; with header the names
+    are longer than every code and are not numbers."""
+    delim = rng.choice([44, 59, 58, 124])
+    nnum = rng.randint(1, 2)                      # column 0 = numeric output
+    ncode = nnum + rng.randint(2, 4)
+    kinds = ["num"] * nnum + ["text"] * ncode
+    order = list(range(1, len(kinds)))
+    rng.shuffle(order)
+    kinds = [kinds[0]] + [kinds[i] for i in order]
+    ncols = len(kinds)
+    widths = [rng.randint(2, 4) for _ in range(ncols)]
+    trail = [rng.choice(["", "", " "]) for _ in range(ncols)]
+    nrows = rng.randint(3, 12)
+    letters = "ghjkmqrsuvwz"
+    cells = []
+    for r in range(nrows):
+        row = []
+        for c in range(ncols):
+            lead = "" if c == 0 else " "
+            if kinds[c] == "num":
+                row.append(lead + str(rng.randint(-999, 9999)) + trail[c])
+            else:
+                row.append(lead + "".join(rng.choice(letters) for _ in range(widths[c])) + trail[c])
+        cells.append(row)
+    header = None
+    if with_header:
+        header = [("" if c == 0 else " ") + "n" + "".join(rng.choice(letters) for _ in range(rng.randint(6, 9))) + str(c)
+                  for c in range(ncols)]
+    return {"delim": delim, "ncols": ncols, "nrows": nrows, "out": 0, "out_kind": "num", "kinds": kinds,
+            "cells": cells, "header": header}
+
+
 def table_text(t, rng, tame=False):
     rows = ([t["header"]] if t["header"] is not None else []) + t["cells"]
     if tame:
@@ -130,6 +165,14 @@ def gen_cases(ck):
         txt = table_text(t, rng, tame=True)
         hdr = 1 if t["header"] is not None else 0
         for (d, h) in ((0, -1), (t["delim"], -1), (0, hdr), (t["delim"], hdr)):
+            cases.append({"mode": "csv", "table": t, "sniffed": (d == 0, h == -1),
+                          "line": cc.csv_line(txt, d, h, False, 0)})
+    # 3b. the same on space-padded tables with dominating fixed-width code columns (has_header compares field widths)
+    for _ in range(80 * n):
+        t = padded_family(rng, rng.random() < 0.5)
+        txt = table_text(t, rng, tame=True)
+        hdr = 1 if t["header"] is not None else 0
+        for (d, h) in ((0, -1), (t["delim"], -1), (t["delim"], hdr)):
             cases.append({"mode": "csv", "table": t, "sniffed": (d == 0, h == -1),
                           "line": cc.csv_line(txt, d, h, False, 0)})
     # 4. src_problem + the program Xi
@@ -238,6 +281,6 @@ def run(ck):
     return ck.finish(
         rule="seeded random rectangular tables (2-6 columns, 2-14 rows; numeric/text/void columns; every delimiter; header or "
              "not; every output index and none; random quoting; printable cell text with quotes, delimiters, blanks), the "
-             "same with a filter hook, sniffed vs explicit settings on unambiguous tables, src_problem + program Xi, XRFF "
+             "same with a filter hook, sniffed vs explicit settings on unambiguous tables (plain numeric tables, and space-padded tables whose fixed-width code columns outnumber the numeric ones), src_problem + program Xi, XRFF "
              "renderings, and single lines for parse_line; non-trivial = a table with >= 2 data rows and >= 2 columns or a "
              "non-blank line; distinct = distinct input text and parameters")
